@@ -45,7 +45,7 @@ pub fn plan(id: &str, tier: &str) -> Option<Plan> {
     match id {
         "C01" => Some(Plan::new(if _t { 96 } else { 12 }, 1200)),
         "C02" => Some(Plan::new(if _t { 160 } else { 14 }, 1200)),
-        "C03" => Some(Plan::new(if _t { 64 } else { 12 }, 900)),
+        "C03" => Some(Plan::new(if _t { 64 } else { 12 }, 1500)),
         "C14" => Some(Plan::new(if _t { 64 } else { 6 }, 900)),
         "C13" => Some(Plan::new(if _t { 48 } else { 12 }, 1500)),
         "C15" => Some(Plan::new(if _t { 96 } else { 12 }, 1500)),
